@@ -107,3 +107,13 @@ Lemma bomb_witness :
   let y := fst (toy_run 1000 w_bomb_init [EvData w_bomb]) in
   rsize (re (core y)) = 12 /\ tpaused (pr (core y)) = true /\ has_more (pr (core y)) = true.
 Proof. vm_compute. repeat split. Qed.
+
+(* toy gzip member 1f 02 41 00 <wrong checksum ff> in two HTTP chunks; the consumer has read "AA" and waits;
+   the second segment ends chunk 1 without new output (data-less wake-up) and then fails the checksum *)
+Definition w_rewait_seg1 : bytes := [52; 13; 10; 31; 2; 65].
+Definition w_rewait_seg2 : bytes := [0; 13; 10; 49; 13; 10; 255; 13; 10; 48; 13; 10; 13; 10].
+Definition w_rewait_events : list event := [EvData w_rewait_seg1; EvOp OpReadAny; EvOp OpReadAny; EvData w_rewait_seg2].
+Definition hung_with_error {H} (y : sys H) : Prop :=
+  pend y <> None /\ rexn (re (core y)) <> None /\ wt (re (core y)) = WWaiting.
+Lemma rewait_witness : hung_with_error (fst (toy_run 100 (toy_init 64 true 8190 8190 125 true PChunked 5 1) w_rewait_events)).
+Proof. vm_compute. repeat split; discriminate. Qed.
